@@ -306,6 +306,61 @@ pub(crate) enum Diff {
 
 pub(crate) type DiffList = Vec<Diff>;
 
+#[cfg(ironcalc_verif)]
+impl Diff {
+    /// Verification hook: the variant name (coverage accounting only).
+    pub(crate) fn verif_kind_name(&self) -> &'static str {
+        match self {
+            Diff::SetCellValue { .. } => "SetCellValue",
+            Diff::SetArrayValue { .. } => "SetArrayValue",
+            Diff::RangeClearContents { .. } => "RangeClearContents",
+            Diff::RangeClearAll { .. } => "RangeClearAll",
+            Diff::CellClearFormatting { .. } => "CellClearFormatting",
+            Diff::SetCellStyle { .. } => "SetCellStyle",
+            Diff::ApplyNamedStyle { .. } => "ApplyNamedStyle",
+            Diff::SetColumnWidth { .. } => "SetColumnWidth",
+            Diff::SetColumnHidden { .. } => "SetColumnHidden",
+            Diff::SetRowHeight { .. } => "SetRowHeight",
+            Diff::SetRowHidden { .. } => "SetRowHidden",
+            Diff::SetColumnStyle { .. } => "SetColumnStyle",
+            Diff::SetRowStyle { .. } => "SetRowStyle",
+            Diff::DeleteColumnStyle { .. } => "DeleteColumnStyle",
+            Diff::DeleteRowStyle { .. } => "DeleteRowStyle",
+            Diff::InsertRows { .. } => "InsertRows",
+            Diff::DeleteRows { .. } => "DeleteRows",
+            Diff::InsertColumns { .. } => "InsertColumns",
+            Diff::DeleteColumns { .. } => "DeleteColumns",
+            Diff::DeleteSheet { .. } => "DeleteSheet",
+            Diff::SetFrozenRowsCount { .. } => "SetFrozenRowsCount",
+            Diff::SetFrozenColumnsCount { .. } => "SetFrozenColumnsCount",
+            Diff::NewSheet { .. } => "NewSheet",
+            Diff::DuplicateSheet { .. } => "DuplicateSheet",
+            Diff::RenameSheet { .. } => "RenameSheet",
+            Diff::MoveSheet { .. } => "MoveSheet",
+            Diff::SetSheetColor { .. } => "SetSheetColor",
+            Diff::SetSheetState { .. } => "SetSheetState",
+            Diff::SetShowGridLines { .. } => "SetShowGridLines",
+            Diff::SetTheme { .. } => "SetTheme",
+            Diff::CreateDefinedName { .. } => "CreateDefinedName",
+            Diff::DeleteDefinedName { .. } => "DeleteDefinedName",
+            Diff::UpdateDefinedName { .. } => "UpdateDefinedName",
+            Diff::MoveColumns { .. } => "MoveColumns",
+            Diff::MoveRows { .. } => "MoveRows",
+            Diff::SetLocale { .. } => "SetLocale",
+            Diff::SetWorkbookName { .. } => "SetWorkbookName",
+            Diff::SetTimezone { .. } => "SetTimezone",
+            Diff::CreateNamedStyle { .. } => "CreateNamedStyle",
+            Diff::DeleteNamedStyle { .. } => "DeleteNamedStyle",
+            Diff::UpdateNamedStyle { .. } => "UpdateNamedStyle",
+            Diff::AddConditionalFormatting { .. } => "AddConditionalFormatting",
+            Diff::DeleteConditionalFormatting { .. } => "DeleteConditionalFormatting",
+            Diff::UpdateConditionalFormatting { .. } => "UpdateConditionalFormatting",
+            Diff::SetCellLink { .. } => "SetCellLink",
+            Diff::SwapConditionalFormattingPriority { .. } => "SwapConditionalFormattingPriority",
+        }
+    }
+}
+
 #[derive(Default)]
 pub(crate) struct History {
     pub(crate) undo_stack: Vec<DiffList>,
